@@ -233,6 +233,8 @@ def run_history(ctx: Ctx, backend: str, hist: list[tuple], fixes: dict, tag: str
             continue                      # dropping a table that does not exist is outside the property
         if op[0] == "complete" and backend == "sqlite":
             continue                      # completeness_chart emits SQL SQLite cannot parse (loud, outside C18)
+        if op[0] == "sbl":
+            op = ("cluster", op[1])       # single best links needs source datasets; the catalog world is dedupe_only
         term, raised = w.capply(op)
         done.append(op)
         if raised:
